@@ -8,18 +8,18 @@ Definition bytes_eqb (a b : bytes) : bool := if list_eq_dec N.eq_dec a b then tr
 Definition nilb {A} (l : list A) : bool := match l with [] => true | _ => false end.
 
 Definition normal_compb (imm : bool) (c : component) : bool :=
-  (c_tag c <? 256) && (imm || (c_has_pts c && (c_pts c <? 8589934592))).
+  (c_tag c <? 256) && (imm || negb (c_has_pts c) || (c_pts c <? 8589934592)).
 Definition normal_insertb (i : insert) : bool :=
   (i_event_id i <? 4294967296) &&
   (i_cancel i ||
-   ((negb (i_program i) || i_immediate i || (i_has_pts i && (i_pts i <? 8589934592))) &&
+   ((negb (i_program i) || i_immediate i || negb (i_has_pts i) || (i_pts i <? 8589934592)) &&
     (i_program i || (forallb (normal_compb (i_immediate i)) (i_components i) && (len (i_components i) <? 256))) &&
     (negb (i_has_duration i) || (i_duration i <? 8589934592)) &&
     (i_unique_program_id i <? 65536) && (i_avail_num i <? 256) && (i_avails_expected i <? 256))).
 Definition normal_cmdb (c : Scte.command) : bool :=
   match c with
   | CNull => true
-  | CTime h p => h && (p <? 8589934592)
+  | CTime h p => negb h || (p <? 8589934592)
   | CInsert i => normal_insertb i
   end.
 Definition normal_midb (u : Scte.upid) : bool :=
@@ -76,7 +76,7 @@ Proof. intros H Hf. rewrite forallb_forall in Hf. apply Forall_forall. intros x 
 
 Lemma normal_compb_ok imm c : normal_compb imm c = true -> normal_comp imm c.
 Proof.
-  unfold normal_compb, normal_comp. intros H. bsplit. split; [assumption|]. intros ->. cbn [orb] in *. bsplit. auto.
+  unfold normal_compb, normal_comp. intros H. bsplit. split; [assumption|]. intros -> Hh. rewrite Hh in *. cbn [negb orb] in *. bsplit. assumption.
 Qed.
 Ltac fin :=
   intros;
@@ -89,7 +89,7 @@ Ltac fin :=
 Lemma normal_cmdb_ok c : normal_cmdb c = true -> normal_cmd c.
 Proof.
   destruct c as [|h p|i]; cbn [normal_cmdb normal_cmd]; intros H; [exact I| |].
-  - bsplit. auto.
+  - intros ->. cbn [negb orb] in H. bsplit. assumption.
   - destruct i as [eid cancel out prog imm has pts comps hasdur dur auto up an ae].
     unfold normal_insertb, normal_insert in *.
     cbn [i_event_id i_cancel i_out i_program i_immediate i_has_pts i_pts i_components i_has_duration i_duration
